@@ -396,17 +396,18 @@ func c01FlamePhase(r *core.Run, cat []catRoute, paths []string) {
 	}
 	if p, err := route.NewParser(); err == nil {
 		tri, _ := mkCatalogue(p, []string{"/a/b", "/a/?b", "/a/{p2}", "/{p1}/b", "/a", "/{m1: **}", "/a/?{o2}", "/a/{r2: /b+/}"})
-		r.Bounds["flame_triples"] = fmt.Sprintf("ordered triples of %d routes x {GET,POST}^3", len(tri))
+		r.Bounds["flame_triples"] = fmt.Sprintf("ordered triples of %d routes (a route may recur for another method) x {GET,POST}^3", len(tri))
 		for a := range tri {
 			for b := range tri {
 				for c := range tri {
-					if a == b || b == c || a == c {
-						continue
-					}
 					for bits := 0; bits < 8; bits++ {
 						ms := make([]string, 3)
 						for k := range ms {
 							ms[k] = []string{"GET", "POST"}[(bits>>k)&1]
+						}
+						// the same route may occur again for another method
+						if (a == b && ms[0] == ms[1]) || (b == c && ms[1] == ms[2]) || (a == c && ms[0] == ms[2]) {
+							continue
 						}
 						configs = append(configs, config{[]catRoute{tri[a], tri[b], tri[c]}, ms})
 					}
